@@ -39,6 +39,10 @@ claimed = {
    text="Decides from source: every return of Exchange reachable after the connection was used is dominated by the registration of a deferred close of that connection; the sender's dispatch has an arm per answer constant, every payload write/read is dominated by 'answer == Accept' of the very proposal transferred, deferral/rejection/transfer bookkeeping happens only on the matching answer edge (transfer only after the write succeeded), duplicate MIDs in a block are deferred; the emitted block is proven <= 5 proposals and the answers are matched against that same slice; reporting chains shared with C02 (sent after confirmation, received after the handler succeeded, one report per MID). Does not decide byte-identical delivery, exactly-once accounting across turn-overs or stream segmentations (run-time quantities).",
    technique="dominance analysis on SSA (deferred-close registration, answer-equality guards on transfer call sites), length proof by the fact engine, shared reporting-chain rules",
    ref="DESIGN.md section 4, C01"),
+ "C08": dict(
+   text="Decides from source: Read inspects position and size only through comparisons, so the three orderings are enumerated and the branch structure followed for each: every ordering reaches the decoder (only pos<size) or returns a non-nil error/EOF - no state returns (0,nil) forever; between any two increments of the position an edge establishing pos<size is taken (output never exceeds the declared size); Close's nil return lies past guards on sticky errors, CRC (under the crc16 flag only) and size; a failed byte read is recorded before returning, the bit reader masks to the requested width, Read consults the bit reader error; the window cursor is constant-initialised or masked; crash-site inventory of NewReader/Read/Close and callees in lzhuf discharged by compiler proofs and the fact engine. The adaptive-tree indices (decodeChar/update/reconst, 22 sites) are listed as ASSUMED (tree-shape invariant), not discharged. Does not decide that the bytes read are the canonical decoding, tree-index safety, or termination of the tree walk.",
+   technique="abstract case enumeration over comparison orderings on the SSA CFG; path search for an unguarded increment; guard dominance; crash-site inventory with compiler BCE proofs and difference-bound facts",
+   ref="DESIGN.md section 4, C08"),
 }
 
 not_applicable = {
